@@ -7,3 +7,6 @@ pub assume_specification<'a>[ <core::str::Chars<'a> as Iterator>::count ](c: cor
 pub assume_specification[ usize::next_multiple_of ](x: usize, m: usize) -> (r: usize)
     requires m > 0, x + m <= usize::MAX,
     ensures r >= x, r < x + m, r % m == 0;
+/// `usize::from(bool)`: vstd accepts the call but leaves the result uninterpreted
+pub assume_specification[ <usize as From<bool>>::from ](b: bool) -> (r: usize)
+    ensures r == (if b { 1usize } else { 0usize });
